@@ -85,15 +85,18 @@ type ctx struct {
 	// every renameEvery-th agreeing case is repeated with a member name spelled outside ASCII (0 = off)
 	renameEvery int
 	renameCount int
-	inRename    bool
-	rng         *rng
-	drv         *driver
-	rep         *Report
-	seen        map[[20]byte]bool
-	start       time.Time
-	maxDis      int
-	known       []knownFinding
-	replayD     string
+	// every respellEvery-th agreeing case is repeated in another spelling (0 = off)
+	respellEvery int
+	respellCount int
+	inRename     bool
+	rng          *rng
+	drv          *driver
+	rep          *Report
+	seen         map[[20]byte]bool
+	start        time.Time
+	maxDis       int
+	known        []knownFinding
+	replayD      string
 }
 
 func newCtx(prop, tier string, seed int64) (*ctx, error) {
@@ -101,7 +104,7 @@ func newCtx(prop, tier string, seed int64) (*ctx, error) {
 	if err != nil {
 		return nil, err
 	}
-	c := &ctx{prop: prop, tier: tier, seed: seed, nativeEvery: nativeEveryFor(prop), renameEvery: 6, rng: newRng(seed), drv: d,
+	c := &ctx{prop: prop, tier: tier, seed: seed, nativeEvery: nativeEveryFor(prop), renameEvery: 6, respellEvery: 4, rng: newRng(seed), drv: d,
 		seen: map[[20]byte]bool{}, start: time.Now(), maxDis: 25}
 	c.rep = &Report{Property: prop, Tier: tier, Seed: seed, SkipReasons: map[string]int{},
 		Buckets: map[string]int{}, Outcomes: map[string]int{}}
@@ -250,6 +253,17 @@ func (c *ctx) diffEval(prog string, input interface{}, bucket string) (string, s
 	// are compared as texts, so the implementation and the model must still agree (both are run on the renamed pair;
 	// nothing is assumed about the renamed program's meaning).  The code points are chosen so that their low byte is an
 	// ASCII symbol, digit, quote or white space: a lexer table indexed by a truncated rune splits such names.
+	// derived case: the same program in another spelling (respell.go)
+	if c.respellEvery > 0 && !c.inRename {
+		c.respellCount++
+		if c.respellCount%c.respellEvery == 0 {
+			if alt, rule := respell(c.rng, prog); alt != "" {
+				c.inRename = true
+				c.diffEval(alt, input, bucket+"/respelled:"+rule)
+				c.inRename = false
+			}
+		}
+	}
 	if c.renameEvery > 0 && !c.inRename {
 		c.renameCount++
 		if c.renameCount%c.renameEvery == 0 {
